@@ -182,7 +182,7 @@ fn run_case(text: &str, kw: &str, case: &str, nontrivial: bool, rep: &mut Report
 pub fn run(ctx: &Ctx, rep: &mut Report) {
     let nkw = VOCAB.len() as u64;
     // members and corrupted members, per keyword, in 7 contexts
-    let per_kw = ctx.pick(150, 60_000);
+    let per_kw = ctx.pick(150, 300_000);
     par_cases(ctx, "args", nkw * per_kw, rep, |i, rep| {
         let kw = &VOCAB[(i % nkw) as usize];
         let mut r = Rng::for_case(ctx.seed, "args", i);
@@ -210,7 +210,7 @@ pub fn run(ctx: &Ctx, rep: &mut Report) {
         run_case(&text, kw.word, &format!("args:{}", i), nontrivial, rep);
     });
     // keyword-level corruptions: extended, truncated, glued, prefix families
-    let per_kw2 = ctx.pick(40, 8000);
+    let per_kw2 = ctx.pick(40, 40_000);
     par_cases(ctx, "words", nkw * per_kw2, rep, |i, rep| {
         let kw = &VOCAB[(i % nkw) as usize];
         let mut r = Rng::for_case(ctx.seed, "words", i);
@@ -237,7 +237,7 @@ pub fn run(ctx: &Ctx, rep: &mut Report) {
         run_case(&text, kw.word, &format!("words:{}", i), true, rep);
     });
     // glued primaries: no word boundary between a complete primary and the next word
-    let per_kw3 = ctx.pick(30, 6000);
+    let per_kw3 = ctx.pick(30, 30_000);
     par_cases(ctx, "glued", nkw * per_kw3, rep, |i, rep| {
         let kw = &VOCAB[(i % nkw) as usize];
         let mut r = Rng::for_case(ctx.seed, "glued", i);
